@@ -2,7 +2,7 @@
 import asyncio
 import multiprocessing as mp
 import random
-from datetime import datetime, timedelta
+from datetime import datetime, timedelta, timezone
 
 from common import MachineryError, Result, Work, dump_states, main_wrapper, run_tlc, seed, tier, to_tla
 
@@ -22,6 +22,32 @@ def notation(t, off):
         return local.strftime("%Y-%m-%dT%H:%M:%S") + "Z"
     sign = "+" if o >= 0 else "-"
     return local.strftime("%Y-%m-%dT%H:%M:%S") + f"{sign}{abs(o) // 60:02d}:{abs(o) % 60:02d}"
+
+
+def alt_notations(t, off):
+    """other ways of writing the same instant as an ISO-8601 datetime with UTC offset: basic format, offset without colon, hour-only offset, fraction of a
+    second. Only those this Python's datetime.fromisoformat reads as that very instant are used (what fromisoformat accepts differs between Python versions)"""
+    o = 0 if off == "Z" else off
+    local = EPOCH + timedelta(seconds=t + o * 60)
+    sign = "+" if o >= 0 else "-"
+    hh, mm = abs(o) // 60, abs(o) % 60
+    ext, bas = local.strftime("%Y-%m-%dT%H:%M:%S"), local.strftime("%Y%m%dT%H%M%S")
+    cands = [f"{ext}{sign}{hh:02d}{mm:02d}", f"{bas}{sign}{hh:02d}{mm:02d}", f"{bas}{sign}{hh:02d}:{mm:02d}", f"{ext}.000{sign}{hh:02d}:{mm:02d}",
+             f"{ext},000000{sign}{hh:02d}:{mm:02d}"]
+    if mm == 0:
+        cands += [f"{ext}{sign}{hh:02d}", f"{bas}{sign}{hh:02d}"]
+    if o == 0:
+        cands += [f"{bas}Z", f"{ext}.000Z"]
+    want = EPOCH.replace(tzinfo=timezone.utc) + timedelta(seconds=t)
+    out = []
+    for c in cands:
+        try:
+            d = datetime.fromisoformat(c)
+        except ValueError:
+            continue
+        if d.tzinfo is not None and d == want:
+            out.append(c)
+    return out
 
 
 def evaluator():
@@ -70,6 +96,19 @@ def _worker(args):
                                     f"(local second of day {v['localsod']}, {'CEST' if v['cest'] else 'CET'})"), {"string": s, "key": k, "expected": exp[k]}))
                 elif not got and not msg:
                     viol.append((f"evaluate_{k}({s!r}) is unfulfilled without an error message", {"string": s, "key": k}))
+            if v["strom"] or v["gas"] or rng.random() < 0.03:
+                # the verdict never depends on the notation: other ISO-8601 spellings of the same instant
+                for s2 in alt_notations(t, off):
+                    for k, m in methods.items():
+                        n += 1
+                        try:
+                            r = m(s2)
+                        except BaseException as e:  # pylint:disable=broad-except
+                            viol.append((f"evaluate_{k}({s2!r}) raised {type(e).__name__}: {e}", {"string": s2, "key": k}))
+                            continue
+                        if r.format_constraint_fulfilled != exp[k]:
+                            viol.append((f"evaluate_{k}({s2!r}) = {r.format_constraint_fulfilled} but the same instant written {s!r} gives (and must give) {exp[k]}",
+                                         {"string": s2, "key": k, "expected": exp[k]}))
             if rng.random() < 0.01:
                 k = rng.choice([931, 932, 933, 934, 935])
                 n += 1
